@@ -87,7 +87,9 @@ static size_t tattr_size(hwloc_obj_t o)
 {
   switch (o->type) {
   case HWLOC_OBJ_L1CACHE: case HWLOC_OBJ_L2CACHE: case HWLOC_OBJ_L3CACHE: case HWLOC_OBJ_L4CACHE: case HWLOC_OBJ_L5CACHE:
-  case HWLOC_OBJ_L1ICACHE: case HWLOC_OBJ_L2ICACHE: case HWLOC_OBJ_L3ICACHE: return sizeof(o->attr->cache);
+  case HWLOC_OBJ_L1ICACHE: case HWLOC_OBJ_L2ICACHE: case HWLOC_OBJ_L3ICACHE:
+  case HWLOC_OBJ_MEMCACHE:      /* every type that has attributes, whatever diff.c's switch lists (NUMA page_types: documented as ignored) */
+    return sizeof(o->attr->cache);
   case HWLOC_OBJ_GROUP: return sizeof(o->attr->group);
   case HWLOC_OBJ_PCI_DEVICE: return sizeof(o->attr->pcidev);
   case HWLOC_OBJ_BRIDGE: return sizeof(o->attr->bridge);
